@@ -1,0 +1,12 @@
+//go:build verif
+
+package pkgload
+
+// Contracts for package pkgload (comment-only; checked by /verif/engine).
+
+// ---- C16: packages are loaded with -tags <buildTags> iff build tags are configured ----
+//@ func PackageLoader.load
+//@   props C16
+//@   propagates
+//@   requires@C13 g != nil && g.lookup != nil
+//@   at@C16 call packages.Load#1 assert arg0.Dir == workDir && ite(buildTags != "", len(arg0.BuildFlags) == 2 && arg0.BuildFlags[0] == "-tags" && arg0.BuildFlags[1] == buildTags, len(arg0.BuildFlags) == 0)
